@@ -1,6 +1,7 @@
 (* C01 - the reported optimum is a genuinely evaluated point with its true energy.  Statements only. *)
 From Coq Require Import List ZArith Bool.
-From MV Require Import Common.Num Common.Order Core.Machine Core.Machine_Proofs Core.DE Core.DE_Proofs.
+From Coq Require Import QArith.
+From MV Require Import Common.Num Common.Order Common.NumQI Core.Machine Core.Machine_Proofs Core.DE Core.DE_Proofs Core.NM Core.NM_Proofs.
 Import ListNotations.
 Open Scope Z_scope.
 
@@ -29,7 +30,7 @@ Print Assumptions C01_logged_energy_is_cost_plus_penalty.
 Theorem C01_de_best_and_members_evaluated :
   forall (N : Num) (inf : T N), StrictWeak (T N) (ltb N) -> (forall p, is_top N (add N inf p)) -> is_top N inf ->
   forall (npop : nat) (de2 : bool) (ops : list (op N (de_in N))) (sc : sys N * de N),
-  Forall (clean_op N _ (de_ok_in N npop)) ops -> P_de N inf npop (fst sc) (snd sc) ->
+  Forall (clean_op N _ (de_ok_in N npop) false) ops -> P_de N inf npop (fst sc) (snd sc) ->
   let r := run N inf _ _ (de_algo N inf de2) sc ops in
   Forall (honest N (fst r)) (members N (snd r)) /\ honest N (fst r) (de_best N inf (snd r)).
 Proof.
@@ -54,3 +55,47 @@ Print Assumptions C01_de_best_never_worse.
 (* non-vacuity: the initial state of a DE solver satisfies the invariant *)
 Example C01_nonvacuous : forall (N : Num) (inf : T N) t, is_top N inf -> P_de N inf 4 (init_sys N inf t) (de_init N inf 4 2).
 Proof. intros N inf t Hi. apply de_init_ok; auto. Qed.
+
+(* Nelder-Mead: for every cost, penalty, box, idempotent constraints function, every stream of candidate points (whatever
+   the reflection / expansion / contraction / shrink arithmetic produces), every argsort answer and every clean sequence of
+   API operations (no population re-installation, no re-decoration, no SetConstraints in the middle: the situations of
+   finding F9), once the initial evaluation is logged the reported best is a point at which a real call was made, with
+   the energy that call returned (or a top value), it satisfies the constraints, and it is the last step-monitor record.
+   `sim <> []` excludes the model's sentinel state for an argsort answer that is not a sorting permutation. *)
+Theorem C01_nm_reported_best :
+  forall (N : Num) (inf : T N), (forall p, is_top N (add N inf p)) -> is_top N inf ->
+  forall cons0 : vec N -> vec N, (forall x, cons0 (cons0 x) = cons0 x) ->
+  forall (ops : list (op N (nm_in N))) (sc : sys N * nm N),
+  Forall (clean_op N _ (nm_ok_in N) true) ops -> P_nm N inf cons0 (fst sc) (snd sc) ->
+  let r := run N inf _ _ (nm_algo N inf) sc ops in
+  stepmon N (fst r) <> [] -> sim N (snd r) <> [] ->
+  honest N (fst r) (nm_best N inf (snd r)) /\ cons0 (fst (nm_best N inf (snd r))) = fst (nm_best N inf (snd r)) /\
+  last (stepmon N (fst r)) ([], inf) = nm_best N inf (snd r).
+Proof. exact nm_reported_best. Qed.
+Print Assumptions C01_nm_reported_best.
+
+(* non-vacuity.  (1) the order hypotheses of the theorems above hold in an executable instance: rationals with +infinity *)
+Example C01_hypotheses_satisfiable :
+  StrictWeak (T NumQI) (ltb NumQI) /\ (forall p, is_top NumQI (add NumQI None p)) /\ is_top NumQI None.
+Proof. split; [exact qi_strict_weak|split; [exact qi_inf_plus_top|exact qi_inf_top]]. Qed.
+
+(* (2) a freshly built Nelder-Mead solver satisfies the invariant, and a concrete three-generation run (expansion accepted)
+   meets the premises of C01_nm_reported_best *)
+Example C01_nm_nonvacuous_init : forall (N : Num) (inf : T N) t ndim, is_top N inf ->
+  P_nm N inf (fun x => x) (init_sys N inf t) (nm_init N inf ndim).
+Proof. intros. apply nm_init_ok; auto. Qed.
+
+Definition C01_ex_cost (x : vec NumQI) : yval NumQI := YS NumQI (match x with [Some a] => Some (a * a)%Q | _ => None end).
+Definition C01_ex_v (q : Q) : vec NumQI := [Some q].
+Definition C01_ex_ops : list (op NumQI (nm_in NumQI)) :=
+  [OSetObjective C01_ex_cost; OStep false (Build_nm_in NumQI [] None false []);
+   OStep false (Build_nm_in NumQI [C01_ex_v (1#2)] None false [0%nat; 1%nat]);
+   OStep false (Build_nm_in NumQI [C01_ex_v (1#4); C01_ex_v (1#8)] None false [0%nat; 1%nat])].
+Example C01_nm_nonvacuous_run :
+  let r := run NumQI None _ _ (nm_algo NumQI None) (init_sys NumQI None (TNever NumQI), nm_init NumQI None 1) C01_ex_ops in
+  Forall (clean_op NumQI _ (nm_ok_in NumQI) true) C01_ex_ops /\
+  length (stepmon NumQI (fst r)) = 3%nat /\ length (sim NumQI (snd r)) = 2%nat /\ length (calls NumQI (fst r)) = 4%nat.
+Proof.
+  cbv zeta. split; [|vm_compute; auto].
+  repeat constructor.
+Qed.
